@@ -340,3 +340,24 @@ def _delta0(prop, case, f):
         return False
     return any(c.get("encoding") == "DELTA_BINARY_PACKED" and not c.get("use_dict") and c.get("optional") and c.get("nulls") not in (None, "none")
                for c in (case.get("recipe") or {}).get("columns", []))
+
+
+@pred("list-row-continuation-of-only-nulls-dropped")
+def _cont_nulls(prop, case, f):
+    # _assemble_objects merges the start of a page into the previous page's last row only `if vali > 0` (a real value was seen):
+    # when the continued part of the row consists of null elements only, it is not merged - and, not being cleared either, it is
+    # prepended to the next row (for a MAP the value list shifts against the key list)
+    return (f.get("kind") == "rows_differ" and f.get("page_version") == 1 and not f.get("single_page") and f.get("elem_optional")
+            and f.get("only_trailing_null_elements_missing") is True)
+
+
+@pred("v2-nested-pages-not-functional")
+def _v2_nested(prop, case, f):
+    # read_data_page_v2 handles repetition levels only in its dictionary branch ("TODO: probably not functional"): definition levels
+    # are read only when the page has nulls (UnboundLocalError otherwise), PLAIN nested pages are scattered as if flat (shape errors),
+    # and the hard-coded null/null_val flags turn empty lists into None and drop null elements
+    if prop == "C15" and f.get("kind") == "process_crash" and case.get("page_version") in (2, [1, 2]):
+        return True
+    if prop != "C15" or f.get("page_version") not in (2, [1, 2]):
+        return False
+    return f.get("kind") in ("read_raised", "rows_differ", "row_count", "assemble_objects_return_value", "process_crash", "column_missing")
